@@ -522,8 +522,33 @@ class Compiler:
                 name = decl.id.name
                 if decl.init:
                     self._compile_expression(decl.init)
+                elif self._in_function:
+                    # `var x;` declares and assigns nothing: a value the
+                    # variable already has stays (locals start as undefined)
+                    self._add_local(name)
+                    continue
                 else:
-                    self._emit(OpCode.LOAD_UNDEFINED)
+                    # At program level the declaration creates the global when
+                    # there is none yet; one that exists (set earlier, or by
+                    # the embedder) keeps its value
+                    self._compile_statement(
+                        IfStatement(
+                            BinaryExpression(
+                                "===",
+                                UnaryExpression("typeof", Identifier(name)),
+                                StringLiteral("undefined"),
+                            ),
+                            ExpressionStatement(
+                                AssignmentExpression(
+                                    "=",
+                                    Identifier(name),
+                                    UnaryExpression("void", NumericLiteral(0)),
+                                )
+                            ),
+                            None,
+                        )
+                    )
+                    continue
 
                 if self._in_function:
                     # Inside function: use local variable
